@@ -34,21 +34,33 @@ package shard
 
 // ---- all-or-nothing write batches: the cache transaction is finished exactly once and with the
 // right flag, and the storage error is never swallowed (property C07, sequential part) ----
-// The write-transaction bodies are not under contract here (assumed: of the captured variables
-// they assign only those listed).
+// The write-transaction bodies are not under contract here. Assumed: of the captured variables they
+// assign only those listed, and they touch the cache transaction only through Transaction.With,
+// whose proved postcondition (every recorded cache is write-locked, names map to distinct caches)
+// therefore holds when they return.
 //@ func (*Shard).InsertPoints$1
 //@   trusted
-//@   modifies txTime
+//@   modifies txTime, cacheTx.writtenCaches, cacheTx.failed.v, cacheTx.manager.sharedCaches, field(cache.sharedCacheElem.scrapped), field(cache.sharedCacheElem.lastAccessed), locks(cache.sharedCacheElem.mu)
+//@   ensures unheld(cacheTx.mu) && unheld(cacheTx.manager.mu)
+//@   ensures forallv(k string, contains(cacheTx.writtenCaches, k) ==> cacheTx.writtenCaches[k] != nil && heldW(cacheTx.writtenCaches[k].mu))
+//@   ensures forallv(a string, forallv(b string, contains(cacheTx.writtenCaches, a) && contains(cacheTx.writtenCaches, b) && a != b ==> cacheTx.writtenCaches[a] != cacheTx.writtenCaches[b]))
 //@ func (*Shard).UpdatePoints$1
 //@   trusted
-//@   modifies updatedIds
+//@   modifies updatedIds, cacheTx.writtenCaches, cacheTx.failed.v, cacheTx.manager.sharedCaches, field(cache.sharedCacheElem.scrapped), field(cache.sharedCacheElem.lastAccessed), locks(cache.sharedCacheElem.mu)
+//@   ensures unheld(cacheTx.mu) && unheld(cacheTx.manager.mu)
+//@   ensures forallv(k string, contains(cacheTx.writtenCaches, k) ==> cacheTx.writtenCaches[k] != nil && heldW(cacheTx.writtenCaches[k].mu))
+//@   ensures forallv(a string, forallv(b string, contains(cacheTx.writtenCaches, a) && contains(cacheTx.writtenCaches, b) && a != b ==> cacheTx.writtenCaches[a] != cacheTx.writtenCaches[b]))
 //@ func (*Shard).DeletePoints$1
 //@   trusted
-//@   modifies deletedIds
+//@   modifies deletedIds, cacheTx.writtenCaches, cacheTx.failed.v, cacheTx.manager.sharedCaches, field(cache.sharedCacheElem.scrapped), field(cache.sharedCacheElem.lastAccessed), locks(cache.sharedCacheElem.mu)
+//@   ensures unheld(cacheTx.mu) && unheld(cacheTx.manager.mu)
+//@   ensures forallv(k string, contains(cacheTx.writtenCaches, k) ==> cacheTx.writtenCaches[k] != nil && heldW(cacheTx.writtenCaches[k].mu))
+//@   ensures forallv(a string, forallv(b string, contains(cacheTx.writtenCaches, a) && contains(cacheTx.writtenCaches, b) && a != b ==> cacheTx.writtenCaches[a] != cacheTx.writtenCaches[b]))
 
 //@ func (*Shard).InsertPoints
 //@   property C07
 //@   safety -overflow -index
+//@   requires s.cacheManager != nil
 //@   ensures ncalls(NewTransaction) == 0 ==> result != nil && ncalls(Commit) == 0 && ncalls(Write) == 0
 //@   ensures ncalls(NewTransaction) != 0 ==> ncalls(NewTransaction) == 1 && ncalls(Commit) == 1 && ncalls(Write) == 1
 //@   ensures ncalls(Commit) == 1 ==> lastarg(Commit, 1) == (result != nil) && (result != nil) == (lastres(Write) != nil)
@@ -56,11 +68,13 @@ package shard
 //@ func (*Shard).UpdatePoints
 //@   property C07
 //@   safety -overflow -index
+//@   requires s.cacheManager != nil
 //@   ensures ncalls(NewTransaction) == 1 && ncalls(Commit) == 1 && ncalls(Write) == 1
 //@   ensures lastarg(Commit, 1) == (err != nil) && (err != nil) == (lastres(Write) != nil)
 
 //@ func (*Shard).DeletePoints
 //@   property C07
 //@   safety -overflow -index
+//@   requires s.cacheManager != nil
 //@   ensures ncalls(NewTransaction) == 1 && ncalls(Commit) == 1 && ncalls(Write) == 1
 //@   ensures lastarg(Commit, 1) == (err != nil) && (err != nil) == (lastres(Write) != nil)
